@@ -82,7 +82,7 @@ func cmdRun(args []string) int {
 		fmt.Fprintln(os.Stderr, "ERROR:", gerr)
 		return 2
 	}
-	r, err := NewRunner("run", map[string][]byte{repoDir + "/zz_verif_gen_walk.go": gen}, only)
+	r, err := NewRunner("run", map[string][]byte{repoDir + "/zz_verif_gen_walk.go": gen}, only, "*")
 	if err != nil {
 		fmt.Fprintln(os.Stderr, "ERROR:", err)
 		return 2
@@ -181,9 +181,18 @@ type propImpl struct {
 	files []string // harness files (rt.go and the generated walker are always included)
 	run   func(c *Check) error
 	level string
+	// fallback: what is left of the check when the package-internal accessors listed in
+	// skipHooks no longer compile against /repo (a change renamed the unexported state they
+	// read): the harness files that need none of them, and the reduced driver
+	hooks         []string // accessor directories under harness/pkg that the files need
+	fallbackFiles []string
+	fallbackRun   func(c *Check) error
 }
 
 var props = map[string]*propImpl{}
+
+// reducedRun: the accessors into unexported state did not compile; drivers skip the jobs that need them.
+var reducedRun bool
 
 func cmdCheck(args []string) int {
 	id := args[0]
@@ -226,7 +235,16 @@ func cmdCheck(args []string) int {
 		return 2
 	}
 	generated := map[string][]byte{repoDir + "/zz_verif_gen_walk.go": gen}
-	r, err := NewRunner(id, generated, p.files)
+	r, err := NewRunner(id, generated, p.files, p.hooks...)
+	run := p.run
+	reducedRun = false
+	if err != nil && p.fallbackRun != nil {
+		fmt.Println("NOTE: the package-internal accessors do not compile against the current tree:", firstLine(err.Error()))
+		fmt.Println("NOTE: running the part of the check that uses the public API only; the claims that need the accessors are not decided on this tree")
+		r, err = NewRunner(id, generated, p.fallbackFiles)
+		run = p.fallbackRun
+		reducedRun = true
+	}
 	if err != nil {
 		fmt.Println("ERROR: cannot load /repo with the harness:", err)
 		return 2
@@ -253,7 +271,7 @@ func cmdCheck(args []string) int {
 		fmt.Println("ERROR:", err)
 		return 2
 	}
-	if err := p.run(c); err != nil {
+	if err := run(c); err != nil {
 		fmt.Println("ERROR:", err)
 		return 2
 	}
